@@ -3,6 +3,7 @@
 Decided on the MIR of the coroutine body of the helper's sending function (the async fn of
 `model::helpers_content::helpers` that calls `RequestBuilder::send`), which is the code every
 generated client method runs (C05.R5 checks that generated methods only forward to it)."""
+from engine.rulekit import inline as I
 from engine.rulekit import mir as M
 from engine.rulekit import pp
 from rules import common_helper as H
@@ -43,7 +44,10 @@ def run(ck, F):
                          + ", ".join(b["path"] for b in senders))
         return
     fb = senders[0]
-    B = M.Body(fb)
+    # the sending function with the helper module's own functions inlined: sync helpers, directly called closures and awaited
+    # local async fns (their coroutine body runs in place of the poll); the restriction check stays a call (C07's anchor)
+    B = M.Body(I.Inliner(F.lib, stop=lambda p: "CheckRestrictions" in p).body(fb))
+    ck.count("helper functions inlined into the sender", len(B.fact.get("inlined", [])))
     fn = fb["path"]
     short = fn.replace(H.HELPERS_MOD + "::", "")
     ck.count("blocks", len(B.reach))
@@ -189,20 +193,45 @@ def run(ck, F):
                 ck.ok("R2", "auth-iff-configured", sp(B, abb), "basic_auth(user, Some(pass)) exactly on the Some arm, result sent", fn=short)
 
     # ---------------- R3 / R4
-    ok_blocks = []
+    # what the function can return as its value: `Ok(payload)` aggregates, or the Result of a call handed on as it is (possibly
+    # through map_err); looked at through inlined helpers and awaited local async fns
+    ok_blocks = []      # (block, payload operand | None, producing call term | None)
+    ret_ident = H.FLOW_IDENTITY + ("Result::<T, E>::map_err",)
+
+    def classify_return(i, rv, spn):
+        if rv["k"] == "aggregate" and rv.get("variant") == "Ok":
+            ok_blocks.append((i, rv["ops"][0], None))
+            return
+        if rv["k"] == "aggregate" and rv.get("variant") == "Err":
+            return
+        if rv["k"] == "use":
+            for o in M.trace(B, rv["op"], ret_ident):
+                if o.kind == "aggregate" and o.rv.get("variant") == "Ok" and not o.proj:
+                    ok_blocks.append((o.bb, o.rv["ops"][0], None))
+                elif o.kind == "aggregate" and o.rv.get("variant") == "Err":
+                    continue
+                elif o.kind == "call" and (M.Body.callee_decl(o.term) or "").endswith("FromResidual::from_residual"):
+                    continue
+                elif o.kind == "call" and not o.proj:
+                    ok_blocks.append((o.bb, None, o.term))
+                else:
+                    ck.undecided("R4", f"return-shape:{o.kind}", spn, f"a returned value of unrecognised origin: {o!r}", fn=short)
+            return
+        ck.undecided("R4", f"return-shape:{rv['k']}", spn, "return value assigned in an unrecognised way: " + pp.rvalue(rv), fn=short)
     for i in sorted(B.reach):
         for s in B.blocks[i]["stmts"]:
             if s["k"] == "assign" and s["p"]["l"] == 0 and not s["p"].get("proj"):
-                rv = s["rv"]
-                if rv["k"] == "aggregate" and rv.get("variant") == "Ok":
-                    ok_blocks.append((i, rv))
-                elif not (rv["k"] == "aggregate" and rv.get("variant") == "Err"):
-                    ck.undecided("R4", f"return-shape:{rv['k']}", s.get("sp", "?"), "return value assigned in an unrecognised way: " + pp.rvalue(rv), fn=short)
+                classify_return(i, s["rv"], s.get("sp", "?"))
         t = B.term(i)
         if t.get("k") == "call" and t["dest"]["l"] == 0 and not t["dest"].get("proj"):
             d = M.Body.callee_decl(t) or ""
-            if not d.endswith("FromResidual::from_residual"):
-                ck.undecided("R4", f"return-call:{d}", sp(B, i), f"the function returns the result of {d} directly; not analysed", fn=short)
+            if d.endswith("FromResidual::from_residual"):
+                continue
+            if d.endswith("Result::<T, E>::map_err"):
+                classify_return(i, {"k": "use", "op": t["args"][0]}, sp(B, i))
+            else:
+                ok_blocks.append((i, None, t))
+    ok_blocks = list({(b_, id(p_), id(t_)): (b_, p_, t_) for b_, p_, t_ in ok_blocks}.values())
     ck.floor("R3", "Ok return sites", len(ok_blocks), 1)
     gates = B.calls_to("reqwest::Response::error_for_status_ref", "reqwest::Response::error_for_status")
     # a private helper of the same module that is nothing but a status gate on its parameter counts as the gate
@@ -218,24 +247,32 @@ def run(ck, F):
         flow = M.result_flow(B, bb, t)
         kinds = {k for k, _ in flow}
         recv_ok = send is not None and any(s[0] == send[0] for s in H.origin_calls(B, t["args"][0]))
-        if kinds == {"propagated"} and recv_ok:
-            gate_conts.append(M.success_continuation(B, bb, t))
-        elif kinds != {"propagated"}:
+        passed_on = bool(kinds) and kinds <= {"propagated", "returned", "mapped:propagated", "mapped:returned"}
+        if passed_on and recv_ok:
+            gate_conts.append(_gate_success(B, bb, t))
+        elif not passed_on:
             ck.violation("R3", "gate-not-propagated", sp(B, bb),
                          f"the result of the status check is {sorted(kinds)} instead of being propagated with `?`", fn=short)
         else:
             ck.violation("R3", "gate-wrong-response", sp(B, bb), "the status check is not applied to the response returned by send", fn=short)
-    for obb, rv in ok_blocks:
+    for obb, payload, rcall in ok_blocks:
         if any(c is not None and B.dominates(c, obb) for c in gate_conts):
             ck.ok("R3", "status-gate", sp(B, obb), "Ok return dominated by the success continuation of the propagated status check", fn=short)
         else:
             ck.violation("R3", "status-gate", sp(B, obb),
                          "an Ok return is reachable without passing the (propagated) HTTP status check: 4xx/5xx replies can yield a value", fn=short)
         # R4 payload provenance
-        src = H.origin_calls(B, rv["ops"][0])
-        good = len(src) == 1 and src[0][1] == "yaserde::de::from_str"
+        if rcall is not None:
+            # the Result of a call is returned as it is: it must be the deserializer's
+            d = M.Body.callee_decl(rcall) or ""
+            good = d == "yaserde::de::from_str"
+            de = rcall
+            src = [(obb, d, None)]
+        else:
+            src = H.origin_calls(B, payload)
+            good = len(src) == 1 and src[0][1] == "yaserde::de::from_str"
+            de = src[0][2].term if good else None
         if good:
-            de = src[0][2].term
             tsrc = H.origin_calls(B, de["args"][0])
             good_text = len(tsrc) == 1 and tsrc[0][1] in ("reqwest::Response::text", "reqwest::Response::text_with_charset")
             resp_ok = False
@@ -244,7 +281,7 @@ def run(ck, F):
                 resp_ok = send is not None and all(r[0] in ([send[0]] + [g[0] for g in gates]) for r in rsrc) and bool(rsrc)
             # every fallible step must have been propagated and dominate the Ok
             steps_ok = True
-            for (cbb, ct) in [(src[0][0], de)] + ([(tsrc[0][0], tsrc[0][2].term)] if good_text else []) + ([send] if send else []):
+            for (cbb, ct) in ([(src[0][0], de)] if rcall is None else []) + ([(tsrc[0][0], tsrc[0][2].term)] if good_text else []) + ([send] if send else []):
                 c = _await_aware_cont(B, cbb, ct)
                 if c is None or not B.dominates(c, obb):
                     steps_ok = False
@@ -288,6 +325,44 @@ def _is_status_gate(F, hb):
                 if cont is None or not HB.dominates(cont, i):
                     return False
     return True
+
+
+def _gate_success(B, bb, t):
+    """Block reached only when the status check succeeded: the Continue arm of its `?`, or the Ok arm of a hand-written match on
+    it; through the return of an inlined helper, the continuation of the `?` applied to the helper's result."""
+    c = M.success_continuation(B, bb, t)
+    if c is not None:
+        # `?` inside an inlined helper: the helper returns Err there, so the caller continues on the helper's Ok
+        for bb2, t2 in B.calls_to("ops::Try::branch"):
+            if M.try_arms(B, bb2, t2)[0] == c:
+                d = M._try_dest(B, bb2, t2)
+                if d not in (None, 0) and B.locals[d].get("inl_ret"):
+                    c2 = M._succ_cont_local(B, d, set())
+                    if c2 is not None:
+                        return c2
+        return c
+    dest = t["dest"]["l"]
+    for (ubb, where, j, x) in M.uses_of_local(B, dest):
+        if where == "stmt" and x["rv"]["k"] == "discr" and not x["p"].get("proj"):
+            ret = M._match_propagates(B, dest, ubb, x["p"])
+            if ret is None:
+                continue
+            if ret != 0 and B.locals[ret].get("inl_ret"):
+                # the match sits in an inlined helper that returns Err on the error arm: the helper's own result is Ok only when the
+                # check succeeded, so what counts is where the caller continues on the helper's Ok
+                c = M._succ_cont_local(B, ret, set())
+                if c is not None:
+                    return c
+            for y in sorted(B.reachable_from(ubb)):
+                sw = B.term(y)
+                if sw.get("k") == "switch" and sw["discr"].get("k") in ("copy", "move") and sw["discr"]["p"]["l"] == x["p"]["l"]:
+                    ok_arm = [b2 for v, b2 in sw["targets"] if v == 0]
+                    if ok_arm:
+                        return ok_arm[0]
+                    break
+    # `helper(resp)?` with the helper inlined and the check propagated with `?` inside it: the success continuation found above
+    # lies inside the helper; the caller continues on the helper's Ok
+    return None
 
 
 def _await_aware_cont(B, bb, t):
